@@ -28,12 +28,14 @@ TRUSTED = [
 ]
 
 TOKENS = ["a", "b", ".", "%a", "%d", "[ab]", "[^a]", "[a-b]", "*", "+", "-", "?", "^", "$", "(", ")", "()",
-          "%1", "%bab", "%f[a]", "%%", "[c-a]", "%f[^a]"]
-# the last two: a reversed range (denotes the empty set); a frontier on a complemented set (contains \0, so the
+          "%1", "%bab", "%f[a]", "%%", "[c-a]", "%f[^a]", "%baa"]
+# the last three: %b with identical delimiters (the closing test comes first); before it: a reversed range (denotes the empty set); a frontier on a complemented set (contains \0, so the
 # virtual \0 before the subject and after its end matters)
 QUANT = {"*", "+", "-", "?"}
 REPLS = ["x", "", "%0", "%1", "<%1>", "%%", "%2", "%1%0", "x%", "%y"]
+import re
 BIG = 1 << 40
+UNDEF_RANGE = re.compile(rb"\[[^\]]*(-%|%.-[^\]])")
 # 4th argument of gsub: absent / integers incl. negative, 0, min- and maxinteger / floats with and without integer value
 NTOKS = ["A"] * 12 + ["i0", "i1", "i1", "i2", "i3", "i-1", "i-2", "i-8000000000000000", "i7fffffffffffffff",
                       "f2.0", "f1.0", "f0.0", "f-1.0", "f1.5", "f-0.5"]
@@ -108,7 +110,8 @@ class Case:
         self.ptn, self.s, self.init, self.repl, self.maxn, self.bud, self.mode, self.kind, self.tokens = \
             ptn, s, init, repl, ntok(maxn), bud, mode, kind, tokens
         # compared with reference PUC-Lua too?  (not the malformed stream; not descending ranges, which the manual leaves open)
-        self.ref = mode == "a" and kind != "malformed-stream" and len(ptn) < 200
+        # ... nor a set with a range whose bound is written with % ("the interaction between ranges and classes is not defined")
+        self.ref = mode == "a" and kind != "malformed-stream" and len(ptn) < 200 and not UNDEF_RANGE.search(ptn)
 
     def line(self, i):
         return "k%d %s %s %d %s %s %d %s" % (i, hx(self.ptn), hx(self.s), self.init, hx(self.repl), self.maxn,
@@ -263,8 +266,8 @@ def compare_ref(case, G, O, R, sanchor):
     """Spec (S side of the oracle) against reference Lua.  Returns list of (field, detail)."""
     out = []
     for key in ("F", "M", "GM", "GS"):
-        if key == "GM" and (sanchor or case.init != 0):
-            continue          # 5.3 has no init argument for gmatch; ^ in gmatch is left open
+        if key == "GM" and case.init != 0:
+            continue          # 5.3 has no init argument for gmatch
         sp = O.get(key, "|").split("|")[1]
         r = R.get(key)
         if r is not None and r != sp:
@@ -333,10 +336,7 @@ def compare(ck, case, G, O, stats):
         if g == sp:
             continue
         ids = []
-        if key == "GM" and sanchor:
-            stats["gmatch-anchored-unobserved"] = stats.get("gmatch-anchored-unobserved", 0) + 1
-            continue
-        elif key == "GS":
+        if key == "GS":
             ids = classify_gs(case, sanchor, o[2] if len(o) > 2 else "")
         if ids and g == im:
             known_hits += ids
@@ -461,6 +461,9 @@ def cpu_clause(ck, gvh):
         ("kill", 'local s=("a"):rep(3000); return (s:find("a*b"))', 20000, "killed", 0),
         ("expo", 'local s=("a"):rep(40); return (s:match("a-a-a-a-a-a-a-a-a-a-b"))', 50000, "killed", 0),
         ("gsub", 'local s=("ab"):rep(2000); return (s:gsub("a", "x"))', 10 ** 9, "ok", 2000),
+        # back-reference comparisons are charged by length: quadratic work must hit a 10^6 budget (N^2/8 = 5*10^7)
+        ("backref", 'local s=("a"):rep(20000); return (s:find("^(a*)%1c"))', 10 ** 6, "killed", 0),
+        ("backref-ok", 'local s=("a"):rep(2000); return (s:find("^(a*)%1c"))', 10 ** 9, "ok", 2000 * 2000 // 8),
         ("gmatch", 'local n=0; for w in (("ab "):rep(1000)):gmatch("%a+") do n=n+1 end; return n', 10 ** 9, "ok", 2000),
     ]
     lines = ["%s %s cpu=%d" % (name, src.encode().hex(), cpu) for name, src, cpu, _, _ in progs]
@@ -581,7 +584,7 @@ def run(tier, seed):
     ck.cov["patterns_by_token_count"] = npat
     ck.cov["exhaustive"] = False
     return ck.finish(
-        rule="(pattern, subject, 0-based init, replacement, max-n, cpu budget) tuples: every pattern of <= 2 tokens over the 23-token "
+        rule="(pattern, subject, 0-based init, replacement, max-n, cpu budget) tuples: every pattern of <= 2 tokens over the 24-token "
              "alphabet x every subject of length <= 3 over {a,b,c} x every init in 0..len+1, plus sampled longer subjects; a "
              "deterministic slice of the 3- and 4-token patterns x sampled subjects of length <= 5 (sizes in patterns_by_token_count); "
              "random patterns of up to 13 tokens over a 52-token alphabet on subjects up to 24 bytes incl. \\0 and \\xff; a malformed "
@@ -590,7 +593,6 @@ def run(tier, seed):
         trusted_base=TRUSTED,
         assumptions=["init is given already normalised (0-based, >= 0); negative / huge init handling belongs to C19",
                      "gsub with table or function replacement is not modelled",
-                     "gmatch with a ^-anchored pattern is compared with the IM only (the manual leaves it open)",
                      "C15_api_equiv_spec assumes Top.wf_pattern of the compiled items; it is evaluated (true) on every pattern the builder "
                      "accepted in this run (distribution key wf_pattern-true) but not proved of Build.v",
                      "the Lua-level drivers (find/match/gmatch/gsub IM vs S) are related by the enumeration, not by a theorem"])
